@@ -98,8 +98,12 @@ M = [
  ('H72', 'C20', 'ciw/exactnode.py', "        return Decimal(str(original)) + Decimal(str(increment))\n\n    def get_service_time(self, ind):", "        return Decimal(str(original)) + Decimal(str(increment)) + (Decimal('1e-7') if Decimal(str(original)) > 20 else 0)\n\n    def get_service_time(self, ind):"),
  ('H73', 'C11', 'ciw/node.py', "                self.preempt(individual_to_preempt, individual)\n", "                self.preempt(individual_to_preempt, individual)\n            elif individual.priority_class == least_priority and individual.id_number % 9 == 0 and in_service:\n                self.preempt(in_service[0], individual)\n"),
  ('H74', 'C04', 'ciw/node.py', "        server.cust = False\n        server.busy = False\n", "        server.cust = False\n        server.busy = (server.id_number == 2 and individual.id_number % 7 == 0)\n"),
- ('H75', 'C07', 'ciw/node.py', "        individual.is_blocked = True\n        self.simulation.statetracker.change_state_block(self, next_node, individual)\n", "        individual.is_blocked = True\n        if individual.id_number % 5 == 0 and individual.server: self.detatch_server(individual.server, individual)\n        self.simulation.statetracker.change_state_block(self, next_node, individual)\n"),]
-
+ ('H75', 'C07', 'ciw/node.py', "        individual.is_blocked = True\n        self.simulation.statetracker.change_state_block(self, next_node, individual)\n", "        individual.is_blocked = True\n        if individual.id_number % 5 == 0 and individual.server: self.detatch_server(individual.server, individual)\n        self.simulation.statetracker.change_state_block(self, next_node, individual)\n"),
+ ('H76', 'C10', 'ciw/arrival_node.py', "        batch = self.simulation.batch_sizes[nd][clss]._sample(t=self.simulation.current_time)\n", "        batch = self.simulation.batch_sizes[nd][clss]._sample()\n"),
+ ('H77', 'C10', 'ciw/node.py', "        return self.simulation.service_times[self.id_number][ind.customer_class]._sample(t=self.now, ind=ind)\n", "        return self.simulation.service_times[self.id_number][ind.customer_class]._sample(t=self.simulation.current_time, ind=ind)\n"),
+ ('H78', 'C10', 'ciw/exactnode.py', "                ]._sample(self.simulation.current_time, ind=ind)\n", "                ]._sample(self.simulation.current_time)\n"),
+ ('H79', 'C13', 'ciw/node.py', "        return self.increment_time(self.now, dist._sample(t=self.now, ind=ind))\n", "        return self.increment_time(self.now, dist._sample(t=self.now))\n"),
+]
 
 def sh(cmd, cwd=None, env=None, timeout=3600):
     p = subprocess.run(cmd, shell=True, cwd=cwd, capture_output=True, text=True, timeout=timeout, env=env)
